@@ -159,7 +159,7 @@ Definition infer_case := (list (N * list (N * N) * list (N * N * bool * list (op
 Definition mk_view (v:N * N * bool * list (option N * list N)) : vrec :=
   match v with (vn, vi, ab, ss) => {| v_name := vn; v_id := vi; v_abs := ab; v_stmts := ss |} end.
 Definition mk_iapp (a:N * list (N * N) * list (N * N * bool * list (option N * list N)) * list N) : iapp :=
-  match a with (n, mem, vs, mix) => {| i_name := n; i_mem := mem; i_views := map mk_view vs; i_mix := mix |} end.
+  match a with (n, mem, vs, mix) => {| i_name := n; i_mem := mem; i_views := map mk_view vs; i_mix := mix; i_refs := [] |} end.
 
 Fixpoint tinsert (x:N * (N * N)) (l:list (N * (N * N))) : list (N * (N * N)) :=
   match l with
@@ -184,12 +184,83 @@ Definition infer_ok (c:infer_case) : bool :=
     && list_eqb triple_eqb (tsort (p_typed r)) typed
   end.
 
-(* 4. (round 3) the retrieved-file table: the import statements of a graph, each as (index, spelling) in the harness's own
-   numbering of what a file system makes of the spelling, and the files the real collectSpecs asked the reader for under one
-   forced completion order.  Model: first claim per index; the set of files read must be the same. *)
 Fixpoint ninsert (x:N) (l:list N) : list N :=
   match l with [] => [x] | y :: l' => if N.leb x y then x :: l else y :: ninsert x l' end.
 Definition nsort (l:list N) : list N := fold_right ninsert [] l.
+
+(* 3b. (round 3, second pass) the life of ONE parse.Parser value: `mods` = the modules of the calls (by call number), a
+   schedule of the calls' two events ((T, g) = the start of call g, where Parse makes the accumulators fresh if it does;
+   (F, g) = the rest of call g, tree walks and postProcess), and per (F, g) in schedule order what call g returned (as in 3.)
+   and what the parser held afterwards: the keys of GetLets() (sorted) and, per view name, the scope keys of the ErrRedefined
+   messages of GetMessages() in the order they were appended.  The harness produces sequential schedules (one parser compiles
+   2..4 sources in a row, names shared between them) and the interleaved one (two goroutines, forced with a gate reader:
+   start 1, start 2, rest of 1, rest of 2).  Model: Infer.run_sched at the flags and the reset of the CURRENT source. *)
+Definition app_tuple := (N * list (N * N) * list (N * N * bool * list (option N * list N)) * list N)%type.
+Definition post_obs := (N * list (N * list (N * N) * list (N * N)) * list (N * (N * N)) * list N * list (N * list N))%type.
+Definition sched_case := (list (N * list app_tuple) * list (bool * N) * list post_obs)%type.
+
+Definition state_ok (st:pstate) (napps:nat) (observed:list (N * list (N * N) * list (N * N))) (typed:list (N * (N * N))) : bool :=
+  forallb (fun p => match p with (n, mem, vs) =>
+                      match ilookup (p_mod st) n with
+                      | Some a => list_eqb pair_eqb (msort (i_mem a)) mem
+                                  && list_eqb pair_eqb (msort (map (fun v => (v_name v, v_id v)) (i_views a))) vs
+                      | None => false
+                      end
+                    end) observed
+  && Nat.eqb (List.length observed) napps
+  && list_eqb triple_eqb (tsort (p_typed st)) typed.
+
+Definition msgs_ok (msgs:list (N * N)) (observed:list (N * list N)) : bool :=
+  forallb (fun p => list_eqb N.eqb (map snd (filter (fun e => N.eqb (fst e) (fst p)) msgs)) (snd p)) observed
+  && Nat.eqb (List.length msgs) (fold_right (fun p n => (List.length (snd p) + n)%nat) 0%nat observed).
+
+Fixpoint mods_of (l:list (N * list app_tuple)) (g:N) : list app_tuple :=
+  match l with
+  | [] => []
+  | (g', apps) :: l' => if N.eqb g' g then apps else mods_of l' g
+  end.
+
+Fixpoint posts_ok (mods:N -> list app_tuple) (rs:list (N * pstate)) (os:list post_obs) : bool :=
+  match rs, os with
+  | [], [] => true
+  | r :: rs', o :: os' =>
+      match o with (g', observed, typed, lets, msgs) =>
+        N.eqb (fst r) g' && state_ok (snd r) (List.length (mods (fst r))) observed typed
+        && list_eqb N.eqb (nsort (p_lets (snd r))) lets && msgs_ok (p_msgs (snd r)) msgs && posts_ok mods rs' os'
+      end
+  | _, _ => false
+  end.
+
+Definition sched_ok (c:sched_case) : bool :=
+  match c with (ml, sched, os) =>
+    let evs := map (fun e : bool * N => if fst e then EReset (snd e) else EPost (snd e)) sched in
+    let r := run_sched current_resets current_flags (fun l => l) (fun _ l => l) (fun g => map mk_iapp (mods_of ml g)) new_parser evs in
+    posts_ok (mods_of ml) (snd r) os
+  end.
+
+(* 3c. (round 3, second pass) fixTypeRefScope inside the application loop: generated modules whose applications and types
+   share names, with fields and endpoint parameters typed `<application>.<type>`, and mixins that move types - and with them
+   the reference objects - between applications.  Observed: per application the member table, and the references that came
+   out as local deep references (Appname gone, Path = [A, B]), sorted.  Model: Infer.pp at the current flags. *)
+Definition ref_tuple := (N * option N * N * N)%type.
+Definition refs_case := (list (N * list (N * N) * list N * list ref_tuple) * list (N * list (N * N)) * list N)%type.
+Definition mk_ref (r:ref_tuple) : rref := match r with (i, f, a, t) => {| r_id := i; r_field := f; r_app := a; r_type := t |} end.
+Definition refs_ok (c:refs_case) : bool :=
+  match c with (apps, observed, locals) =>
+    let m := map (fun a => match a with (n, mem, mix, rs) =>
+                   {| i_name := n; i_mem := mem; i_views := []; i_mix := mix; i_refs := map mk_ref rs |} end) apps in
+    let r := pp current_flags (fun l => l) (fun _ l => l) [] m in
+    forallb (fun p => match ilookup (p_mod r) (fst p) with
+                      | Some a => list_eqb pair_eqb (msort (i_mem a)) (snd p)
+                      | None => false
+                      end) observed
+    && Nat.eqb (List.length observed) (List.length apps)
+    && list_eqb N.eqb (p_local r) locals
+  end.
+
+(* 4. (round 3) the retrieved-file table: the import statements of a graph, each as (index, spelling) in the harness's own
+   numbering of what a file system makes of the spelling, and the files the real collectSpecs asked the reader for under one
+   forced completion order.  Model: first claim per index; the set of files read must be the same. *)
 Definition claim_case := (list N * list N)%type.
 Definition claim_ok (c:claim_case) : bool :=
   match c with (claims, reads) => list_eqb N.eqb (nsort (files_read (fun f => f) claims)) (nsort reads) end.
